@@ -6,6 +6,7 @@
 #include <AIToolbox/Factored/Utils/FactoredMatrix.hpp>
 #include <AIToolbox/Factored/Utils/BayesianNetwork.hpp>
 #include <AIToolbox/Factored/MDP/CooperativeModel.hpp>
+#include <AIToolbox/Factored/MDP/Utils.hpp>
 #include <AIToolbox/Factored/MDP/Algorithms/JointActionLearner.hpp>
 #include <AIToolbox/Factored/MDP/Algorithms/CooperativeQLearning.hpp>
 #include <AIToolbox/Factored/MDP/Algorithms/SparseCooperativeQLearning.hpp>
@@ -826,11 +827,197 @@ static void piek_cases(Rng & rng, const F::Factors & sp) {
     }
 }
 
+
+// ===================================================================================================
+// Part C (round 3): validation chain (checkTag, DDNGraph::push, CooperativeModel ctor), factorSpace clamp,
+// enumerator constructors + reset, multi-factor CooperativeModel, bellmanBackup
+// ===================================================================================================
+static void emit_checktag(Rng & rng) {
+    size_t n = (size_t)rng.range(1, 5);
+    F::Factors sp(n); for (auto & d : sp) d = (size_t)rng.range(1, 3);
+    F::PartialKeys tag;
+    int mode = (int)rng.below(6);
+    if (mode <= 2) { tag = randTag(rng, n); }                                            // valid
+    else if (mode == 3) { tag = randTag(rng, n); if (rng.coin()) tag.push_back(tag[rng.below(tag.size())]); else tag.insert(tag.begin(), tag.back()); }   // duplicate / unsorted
+    else if (mode == 4) { tag = randTag(rng, n); tag[rng.below(tag.size())] = n + rng.below(2); }                     // id too high (any position)
+    else { size_t len = (size_t)rng.range(0, (int64_t)n + 2); for (size_t k = 0; k < len; ++k) tag.push_back(rng.below(n + 1)); }   // anything, incl. empty / too long
+    auto [err, pos] = F::checkTag(sp, tag);
+    Line l; l << "C14" << "checktag"; l.nats(sp); l.nats(tag); l << "|" << (size_t)err << pos; l.emit();
+    ::printf("#stat checktag_%s 1\n", err == F::TagErrors::None ? "none" : "error");
+}
+
+static void emit_fsclamp(Rng & rng) {
+    static const size_t big[] = {1, 2, 3, 7, 1ull << 16, (1ull << 16) + 1, 1ull << 31, 1ull << 32, (1ull << 32) + 1, 3037000500ull, 1ull << 62, 1ull << 63,
+                                 ~0ull, ~0ull - 1, 6074001000ull, 4294967295ull, 4294967297ull};
+    size_t n = (size_t)rng.range(1, 6);
+    F::Factors sp(n);
+    bool small = rng.coin(1, 4);
+    for (auto & d : sp) d = small ? (size_t)rng.range(1, 6) : big[rng.below(sizeof(big) / sizeof(big[0]))];
+    auto keys = randTag(rng, n);
+    Line l; l << "C14" << "fsclamp"; l.nats(sp); l.nats(keys); l << "|" << F::factorSpace(sp) << F::factorSpacePartial(keys, sp); l.emit();
+    ::printf("#stat fsclamp_%s 1\n", F::factorSpace(sp) == ~0ull ? "clamped" : "fits");
+}
+
+static void emit_enumctor(Rng & rng) {
+    F::Factors sp = randSpace(rng, 5, 4, 200);
+    size_t n = sp.size();
+    bool missing = rng.coin();
+    F::PartialKeys keys; size_t skipF;
+    if (missing) {
+        skipF = rng.below(n);
+        for (size_t k = 0; k < n; ++k) if (k != skipF && rng.coin()) keys.push_back(k);      // possibly empty
+    } else {
+        keys = randTag(rng, n); skipF = keys[rng.below(keys.size())];
+    }
+    F::PartialFactorsEnumerator e(sp, keys, skipF, missing);
+    F::PartialKeys implKeys = (*e).first; size_t skipId = e.getFactorToSkipId(); size_t size = e.size();
+    size_t k = rng.below(size + 2);
+    for (size_t t = 0; t < k && e.isValid(); ++t) e.advance();
+    bool cleared = !e.isValid();
+    e.reset();
+    std::vector<std::vector<size_t>> seq; size_t guard = 0;
+    while (e.isValid() && guard++ < 100000) { seq.push_back((*e).second); e.advance(); }
+    Line l; l << "C14" << "enumctor"; l.nats(sp); l.nats(keys); l << skipF << missing << k << "|"; l.nats(implKeys); l << skipId << size << (size_t)seq.size();
+    for (auto & v : seq) l.nats(v);
+    l.emit();
+    ::printf("#stat enumctor_%s_%s 1\n", missing ? "missing" : "present", cleared ? "reset_from_cleared" : "reset_midway");
+}
+
+static void putPS(Line & l, const F::DDNGraph::ParentSet & ps) { l.nats(ps.agents); l << (size_t)ps.features.size(); for (auto & f : ps.features) l.nats(f); }
+
+static F::PartialKeys corruptTag(Rng & rng, F::PartialKeys t, size_t n) {
+    switch (rng.below(5)) {
+    case 0: t.clear(); break;
+    case 1: t.push_back(t[rng.below(t.size())]); break;                       // duplicate or unsorted at the end
+    case 2: t[rng.below(t.size())] = n + rng.below(2); break;                 // id too high
+    case 3: if (t.size() >= 2) std::swap(t[0], t[t.size() - 1]); else t.push_back(t[0]); break;
+    default: while (t.size() <= n) t.push_back(t.back() + 1); break;          // too many (and too high)
+    }
+    return t;
+}
+
+static void emit_push(Rng & rng) {
+    F::Factors S = randSpace(rng, 3, 3, 12), A = randSpace(rng, 3, 3, 8);
+    F::DDNGraph g(S, A);
+    size_t tries = S.size() + (size_t)rng.range(0, 2);
+    Line l; l << "C14" << "push"; l.nats(S); l.nats(A); l << tries;
+    std::vector<bool> ok; int bad = 0;
+    for (size_t t = 0; t < tries; ++t) {
+        F::DDNGraph::ParentSet ps; ps.agents = randTag(rng, A.size());
+        size_t na = F::factorSpacePartial(ps.agents, A);
+        for (size_t k = 0; k < na; ++k) ps.features.push_back(randTag(rng, S.size()));
+        int c = (int)rng.below(8);
+        if (c == 0) { ps.agents = corruptTag(rng, ps.agents, A.size()); ++bad; }
+        else if (c == 1) { ps.features[rng.below(ps.features.size())] = corruptTag(rng, ps.features[0], S.size()); ++bad; }
+        else if (c == 2) { if (rng.coin() && ps.features.size() > 1) ps.features.pop_back(); else ps.features.push_back(randTag(rng, S.size())); ++bad; }
+        putPS(l, ps);
+        bool acc = true;
+        try { g.push(ps); } catch (const std::exception &) { acc = false; }
+        ok.push_back(acc);
+    }
+    l << "|" << (size_t)ok.size(); for (bool b : ok) l << b;
+    const auto & pss = g.getParentSets();
+    l << (size_t)pss.size(); for (auto & ps : pss) putPS(l, ps);
+    l << (size_t)pss.size();
+    for (size_t i = 0; i < pss.size(); ++i) { size_t na = g.getPartialSize(i); l << na + 1; for (size_t k = 0; k < na; ++k) l << g.getId(i, (size_t)0, k); l << g.getSize(i); }
+    l.emit();
+    ::printf("#stat push_%s 1\n", bad ? "with_malformed" : "all_wellformed");
+}
+
+static void putModelInputs(Line & l, const F::Factors & S, const F::Factors & A, const std::vector<F::DDNGraph::ParentSet> & pss,
+                           const F::DDN::TransitionMatrix & T, const F::FactoredMatrix2D & R, double discount) {
+    l.nats(S); l.nats(A); l << (size_t)pss.size(); for (auto & ps : pss) putPS(l, ps);
+    l << (size_t)T.size(); for (auto & m : T) putMat(l, m);
+    putFM(l, R); l << discount;
+}
+
+static void emit_cmctor(Rng & rng) {
+    DDNCase c; c.S = randSpace(rng, 3, 3, 12); c.A = randSpace(rng, 2, 3, 6);
+    makeDDN(rng, c, false);
+    F::FactoredMatrix2D R = randFMx(rng, c.S, c.A, 2, randTag(rng, c.S.size()), randTag(rng, c.A.size()));
+    static const double discs[4] = {0.5, 0.75, 0.875, 1.0};
+    double discount = discs[rng.below(4)];
+    int kind = (int)rng.below(12);
+    std::unique_ptr<F::DDNGraph> g2;
+    const char * what = "valid";
+    switch (kind) {
+    case 0: case 1: break;
+    case 2: { static const double bad[4] = {0.0, -0.5, 1.5, 1.0 + 0x1p-40}; discount = bad[rng.below(4)]; what = "discount"; break; }
+    case 3: { if (rng.coin()) c.T.pop_back(); else c.T.push_back(c.T[0]); what = "matrix_count"; break; }
+    case 4: { auto & m = c.T[rng.below(c.T.size())]; Matrix2D n(m.rows() + 1, m.cols()); n.topRows(m.rows()) = m; n.row(m.rows()) = m.row(0); m = n; what = "row_count"; break; }
+    case 5: { auto & m = c.T[rng.below(c.T.size())]; Matrix2D n(m.rows(), m.cols() + 1); n.setZero(); n.leftCols(m.cols()) = m; m = n; what = "col_count"; break; }
+    case 6: { auto & m = c.T[rng.below(c.T.size())]; static const double eps[4] = {0x1p-21, -0x1p-21, 0x1p-19, -0x1p-19};   // 4.8e-7 stays a distribution, 1.9e-6 does not
+              long r = (long)rng.below((size_t)m.rows()); long col = 0; for (long k = 0; k < m.cols(); ++k) if (m(r, k) > 0) col = k; m(r, col) += eps[rng.below(4)]; what = "row_sum"; break; }
+    case 7: { auto & m = c.T[rng.below(c.T.size())]; if (m.cols() >= 2) { long r = (long)rng.below((size_t)m.rows()); m.row(r).setZero(); m(r, 0) = -0.125; m(r, 1) = 1.125; } what = "negative_entry"; break; }
+    case 8: { if (!R.bases.empty()) { auto & b = R.bases[rng.below(R.bases.size())]; if (rng.coin()) b.tag = corruptTag(rng, b.tag, c.S.size()); else b.actionTag = corruptTag(rng, b.actionTag, c.A.size()); } what = "reward_tag"; break; }
+    case 9: { if (!R.bases.empty()) { auto & b = R.bases[rng.below(R.bases.size())]; Matrix2D n = Matrix2D::Zero(b.values.rows() + (rng.coin() ? 1 : 0), b.values.cols() + 1); b.values = n; } what = "reward_shape"; break; }
+    case 10: { g2.reset(new F::DDNGraph(c.S, c.A)); const auto & pss = c.g->getParentSets(); for (size_t i = 0; i + 1 < pss.size(); ++i) g2->push(pss[i]); what = "missing_node"; break; }
+    default: break;
+    }
+    const F::DDNGraph & g = g2 ? *g2 : *c.g;
+    Line l; l << "C14" << "cmctor"; putModelInputs(l, c.S, c.A, g.getParentSets(), c.T, R, discount);
+    bool acc = true; std::string cls = "-";
+    try { FM_::CooperativeModel cm(g, c.T, R, discount); } catch (const std::exception & e) { acc = false; cls = errClass(e); }
+    l << "|" << acc << cls; l.emit();
+    ::printf("#stat cmctor_%s_%s 1\n", what, acc ? "accepted" : "rejected");
+}
+
+static void emit_bellman(Rng & rng, bool th) {
+    DDNCase c;
+    if (th) { c.S = randSpace(rng, 4, 3, 18); c.A = randSpace(rng, 3, 3, 8); } else { c.S = randSpace(rng, 3, 3, 12); c.A = randSpace(rng, 2, 3, 6); }
+    makeDDN(rng, c, false);
+    bool det = rng.coin(1, 4);
+    if (det) for (auto & m : c.T) for (long r = 0; r < m.rows(); ++r) { m.row(r).setZero(); m(r, (long)rng.below((size_t)m.cols())) = 1.0; }
+    F::FactoredMatrix2D R = randFMx(rng, c.S, c.A, 3, randTag(rng, c.S.size()), randTag(rng, c.A.size()));
+    static const double discs[4] = {0.5, 0.75, 0.875, 1.0};
+    double discount = discs[rng.below(4)];
+    FM_::CooperativeModel cm(*c.g, c.T, R, discount);
+    FM_::ValueFunction v;
+    auto rel = randTag(rng, c.S.size());
+    v.values = randFV(rng, c.S, 3, rng.coin() ? &rel : nullptr);
+    v.weights = randWeights(rng, v.values.bases.size());
+    auto Q = FM_::bellmanBackup(cm, v);
+    Line l; l << "C14" << "bellman"; putModelInputs(l, c.S, c.A, c.g->getParentSets(), c.T, R, discount);
+    putFV(l, v.values); l.nums(v.weights); l << det << "|";
+    putFM(l, Q); putGetsM(l, c.S, c.A, Q);
+    size_t nS = F::factorSpace(c.S), nA = F::factorSpace(c.A);
+    l << nS * nA * nS;
+    for (size_t s = 0; s < nS; ++s) for (size_t a = 0; a < nA; ++a) for (size_t s1 = 0; s1 < nS; ++s1)
+        l << cm.getTransitionProbability(F::toFactors(c.S, s), F::toFactors(c.A, a), F::toFactors(c.S, s1));
+    l << nS * nA;
+    for (size_t s = 0; s < nS; ++s) for (size_t a = 0; a < nA; ++a) l << cm.getExpectedReward(F::toFactors(c.S, s), F::toFactors(c.A, a), F::toFactors(c.S, 0));
+    l << nS;
+    for (size_t s1 = 0; s1 < nS; ++s1) l << v.values.getValue(c.S, F::toFactors(c.S, s1), v.weights);
+    // sampleSR / sampleSRs at every (s, a): sampled next state (index), summed reward, per-basis rewards
+    l << nS * nA;
+    for (size_t s = 0; s < nS; ++s) for (size_t a = 0; a < nA; ++a) {
+        auto [s1, r] = cm.sampleSR(F::toFactors(c.S, s), F::toFactors(c.A, a));
+        auto [s1b, rs] = cm.sampleSRs(F::toFactors(c.S, s), F::toFactors(c.A, a));
+        l << (size_t)(3 + rs.size()) << (double)F::toIndex(c.S, s1) << (double)F::toIndex(c.S, s1b) << r; for (long k = 0; k < rs.size(); ++k) l << (double)rs[k];
+    }
+    l << cm.getDiscount();
+    l.emit();
+    ::printf("#stat bellman_%s_%s_%zubases 1\n", det ? "deterministic" : "stochastic",
+             (size_t)v.weights.size() == v.values.bases.size() + 1 ? "const" : "noconst", (size_t)v.values.bases.size());
+}
+
+static void mdp_case(Rng & rng, const std::string & tier, long sub) {
+    bool th = tier == "thorough";
+    switch (sub % 6) {
+    case 0: for (int t = 0; t < 6; ++t) emit_checktag(rng); for (int t = 0; t < 4; ++t) emit_fsclamp(rng); break;
+    case 1: for (int t = 0; t < 4; ++t) emit_enumctor(rng); break;
+    case 2: emit_push(rng); emit_push(rng); break;
+    case 3: emit_cmctor(rng); emit_cmctor(rng); break;
+    default: emit_bellman(rng, th); break;
+    }
+}
+
 static const int kRandomQuick = 150, kRandomThorough = 3000;
 static const int kAlgQuick = 400, kAlgThorough = 60000;
 static const int kDdnQuick = 100, kDdnThorough = 12000;
 static const int kEqQuick = 160, kEqThorough = 6000;
-static long g_nSpaces = 0, g_nRandom = 0, g_nAlg = 0, g_nDdn = 0, g_nEq = 0;
+static const int kMdpQuick = 240, kMdpThorough = 12000;
+static long g_nSpaces = 0, g_nRandom = 0, g_nAlg = 0, g_nDdn = 0, g_nEq = 0, g_nMdp = 0;
 
 long verif::verif_ncases(const std::string & tier) {
     bool th = tier == "thorough";
@@ -840,7 +1027,8 @@ long verif::verif_ncases(const std::string & tier) {
     g_nAlg = th ? kAlgThorough : kAlgQuick;
     g_nDdn = th ? kDdnThorough : kDdnQuick;
     g_nEq = th ? kEqThorough : kEqQuick;
-    return 1 + g_nSpaces + g_nRandom + g_nAlg + g_nDdn + g_nEq;
+    g_nMdp = th ? kMdpThorough : kMdpQuick;
+    return 1 + g_nSpaces + g_nRandom + g_nAlg + g_nDdn + g_nEq + g_nMdp;
 }
 
 void verif::verif_case(Rng & rng, long idx, const std::string & tier) {
@@ -872,7 +1060,9 @@ void verif::verif_case(Rng & rng, long idx, const std::string & tier) {
     idx -= g_nAlg;
     if (idx < g_nDdn) { ddn_case(rng, tier); return; }
     idx -= g_nDdn;
-    eq_case(rng, tier, idx);
+    if (idx < g_nEq) { eq_case(rng, tier, idx); return; }
+    idx -= g_nEq;
+    mdp_case(rng, tier, idx);
 }
 
 VERIF_MAIN
